@@ -188,13 +188,15 @@ func evaluate(chk string, c *Case, res *Result) *verdict {
 	// ---- oracle 2: no crash of the process, no escaping panic
 	if res.Died {
 		kind := deathKind(res)
-		if kind != "crash" {
+		// only the byte-level fuzzer can produce memory / nesting bombs; everywhere else the
+		// generators keep them out by construction, so there a dead worker is a crashed controller
+		if kind != "crash" && c.Fuzz {
 			vlib.Class(chk, "out-of-scope:"+kind)
 			vlib.Note(chk, "worker died of a "+kind+" (outside the property): "+clip(c.Script, 200, 0))
 			return nil
 		}
 		r2 := pool.run(req, true)
-		if r2.Died && deathKind(r2) == "crash" {
+		if r2.Died && (deathKind(r2) == "crash" || !c.Fuzz) {
 			return &verdict{"process-crash", fmt.Sprintf("the script crashed the process (%s), twice:\n%s", r2.Exit, clip(r2.Stderr, 3000, 1000))}
 		}
 		vlib.Note(chk, "a worker died once but not on re-run ("+res.Exit+"): "+clip(res.Stderr, 400, 200))
@@ -208,7 +210,7 @@ func evaluate(chk string, c *Case, res *Result) *verdict {
 		return &verdict{"harness-error", "harness problem: " + rp.BadInput}
 	}
 	if rp.Panic != "" {
-		if strings.Contains(rp.Panic, "nil pointer dereference") && (strings.Contains(rp.Panic, "Go-nil LValue") || strings.Contains(rp.Panic, "executeLuaForCanary")) {
+		if strings.Contains(rp.Panic, "nil pointer dereference") && strings.Contains(rp.Panic, "executeLuaForCanary") {
 			return &verdict{sigNilReturn, "the value the providers read with l.Get(-1) is a Go-nil LValue and returnValue.Type() panics (nil pointer dereference in executeLuaForCanary):\n" + clip(rp.Panic, 1800, 0)}
 		}
 		return &verdict{"panic-escaped", "a panic escaped RunLuaScript / Get / Encode (recovered by the harness):\n" + rp.Panic}
